@@ -40,6 +40,36 @@ func lww(received []*rawValue) map[string]*want {
 }
 
 func (c *cases) oracle(s *sut, rows []stored, els []ldiff.Element, hash, entry string, herr error) {
+	if s.loose {
+		c.oracleLoose(s, rows)
+	} else {
+		c.oracleContents(s, rows)
+	}
+	c.oracleRest(s, rows, els, hash, entry, herr)
+}
+
+// oracleLoose: while values arrive during an exchange the store need not equal the merge of
+// anything in particular, but it must never go back (per slot: at least the best value it had
+// received itself) and may only hold values that exist.
+func (c *cases) oracleLoose(s *sut, rows []stored) {
+	exp := lww(s.received)
+	got := map[string]stored{}
+	for _, r := range rows {
+		got[r.kv.KeyPeerId] = r
+		v := c.byWire[wireKey(r.kv.Proto())]
+		if v == nil || s.known[v.vid] == nil {
+			c.r.Violate(prop, "", "kv.inflight", fmt.Sprintf("slot %q holds a value nobody sent (%v)", r.kv.KeyPeerId, v), s.ops)
+		}
+	}
+	for k, w := range exp {
+		r, ok := got[k]
+		if !ok || r.kv.TimestampMicro < w.best[0].ts {
+			c.r.Violate(prop, "", "kv.inflight", fmt.Sprintf("slot %q went back: the store had received %v", k, w.best[0]), s.ops)
+		}
+	}
+}
+
+func (c *cases) oracleContents(s *sut, rows []stored) {
 	// (1) contents == per-slot max-by-timestamp of the acceptable values received
 	exp := lww(s.received)
 	got := map[string]stored{}
@@ -89,6 +119,9 @@ func (c *cases) oracle(s *sut, rows []stored, els []ldiff.Element, hash, entry s
 		}
 	}
 
+}
+
+func (c *cases) oracleRest(s *sut, rows []stored, els []ldiff.Element, hash, entry string, herr error) {
 	// (2) authentic entries only — restated from the stored bytes alone
 	for _, r := range rows {
 		cl := c.w.classify(r.kv.Proto())
@@ -209,8 +242,10 @@ func (c *cases) exchangeF(a, b *sut, f fault) {
 	b.cap.take()
 	c.observe(a, op, "")
 	c.observe(b, op, "")
-	model := c.r.Ask(op)
-	c.r.Check(prop, "kv.exchange", a.ops, model, a.lastState+" | "+b.lastState)
+	if !a.noModel {
+		model := c.r.Ask(op)
+		c.r.Check(prop, "kv.exchange", a.ops, model, a.lastState+" | "+b.lastState)
+	}
 	if !fired && a.lastState != b.lastState {
 		c.r.Violate(prop, "", "kv.exchange", "after one exchange the two stores differ: "+a.lastState+" vs "+b.lastState, a.ops)
 	}
